@@ -763,7 +763,7 @@ func C18(c *core.Ctx) {
 	// RemoveNextHop, Prune).
 	if ad := c.Fn("R18.17", "dv/table", "Rib", "Advert"); ad != nil {
 		var iters []ssa.Instruction
-		core.Instrs(ad, func(in ssa.Instruction) {
+		core.InstrsDeep(ad, func(in ssa.Instruction) { // (the building loop may sit in a worker)
 			if rg, ok := in.(*ssa.Range); ok {
 				if _, okF := core.FieldOf(rg.X, "entries"); okF {
 					iters = append(iters, in)
@@ -776,7 +776,7 @@ func C18(c *core.Ctx) {
 			if !isR || in.Block() == ad.Recover || len(r.Results) == 0 || core.IsNilConst(core.Strip(r.Results[0])) {
 				return
 			}
-			if !core.Precedes(ad, r, func(x ssa.Instruction) bool {
+			if !core.PrecedesDeep(ad, r, func(x ssa.Instruction) bool {
 				for _, l := range iters {
 					if x == l {
 						return true
